@@ -68,6 +68,20 @@ func (C10) Generate(c *Ctx, r *Rand, index int) *Scenario {
 			e = Expr{S: ".", Family: "identity", Preserving: true, Total: true, Alts: []string{"."}}
 		}
 	}
+	if variant == 0 && rs.Chance(1, 14) {
+		// a file loaded for every document: it is the same for each, so the per-document runs are a reference,
+		// and whatever the expression does to the loaded tree must not reach the next document
+		sc.Files = append(sc.Files, File{Name: "tpl.yaml", Data: Bytes("owners: [root]\nn: 1\nlabels: {app: x}\n"), Mode: 0644})
+		e = Pick(rs, []Expr{
+			{S: ". as $d | load(\"tpl.yaml\") | .owners += [$d.id]", Family: "load-update"},
+			{S: ".tpl = load(\"tpl.yaml\") | .tpl.n += .a", Family: "load-update", Preserving: true, Mutating: true},
+			{S: ". as $d | load(\"tpl.yaml\") | .labels.id = $d.id | .n += 1", Family: "load-update"},
+			{S: "load(\"tpl.yaml\") * .", Family: "load-update"},
+			{S: ".a as $a | load(\"tpl.yaml\") | .n |= . + $a", Family: "load-update"},
+		})
+		e.Alts = []string{"."}
+		sc.Meta["extra_file"] = "tpl.yaml"
+	}
 	var argv []string
 	if variant == 3 && rs.Chance(1, 2) {
 		// O10.6 runs eval-all itself; the scenario stays in sequence mode
@@ -122,7 +136,9 @@ func (C10) Generate(c *Ctx, r *Rand, index int) *Scenario {
 	sc.Meta["expr_alts"] = alts
 	argv = append(argv, e.Combined())
 	for _, f := range sc.Files {
-		argv = append(argv, f.Name)
+		if f.Name != sc.MetaString("extra_file") {
+			argv = append(argv, f.Name)
+		}
 	}
 	sc.Argv = argv
 	rf := r.Fork("sched")
@@ -285,7 +301,11 @@ func (C10) Judge(c *Ctx, sc *Scenario) []Violation {
 		if format != "yaml" {
 			solo = d.Piece
 		}
-		ref := c.Ref(argv, []File{{Name: d.Name, Data: Bytes(solo), Mode: 0644}}, nil)
+		refFiles := []File{{Name: d.Name, Data: Bytes(solo), Mode: 0644}}
+		if x := sc.File(sc.MetaString("extra_file")); x != nil && sc.MetaString("extra_file") != "" {
+			refFiles = append(refFiles, *x)
+		}
+		ref := c.Ref(argv, refFiles, nil)
 		if crashed, _ := ref.Crashed(); crashed || ref.TimedOut {
 			// the single-document run itself crashes: not a C10 matter
 			return vs
